@@ -334,6 +334,47 @@ def keepTop (mi : Option Nat) (l : List (Peak α V)) : List (Peak α V) :=
 
 end plumbing
 
+/-! ## network mode (BatchNorm / Dropout): the network as a function of (weights, mode, batch statistics, frame) -/
+
+inductive Mode | eval | train
+deriving DecidableEq, Repr
+
+inductive Kind | single | topdown | bottomup
+deriving DecidableEq, Repr
+
+/-- A network with mode-dependent layers.  `run m w σ f`: output for frame `f` under mode `m`, with
+weights / running statistics `w`, when the batch it shares has statistics `σ` (BatchNorm in train
+mode normalises with `σ`; Dropout noise is folded into `σ` too).  `update w σ`: what a train-mode
+forward does to the running statistics.  `eval_indep`: the law of BatchNorm/Dropout — in eval mode
+the batch plays no role. -/
+structure Net (W S F O : Type) where
+  run : Mode → W → S → F → O
+  update : W → S → W
+  eval_indep : ∀ w s s' f, run Mode.eval w s f = run Mode.eval w s' f
+
+/-- Does the inference wrapper switch the network to eval mode on every forward?
+As coded: `TopDownInferenceModel.forward` calls `centroid_crop.eval()` / `instance_peaks.eval()`;
+`SingleInstanceInferenceModel.forward` and `BottomUpInferenceModel.forward` call the network as it is. -/
+def forcesEvalAsIs : Kind → Bool
+  | .topdown => true
+  | .single => false
+  | .bottomup => false
+
+/-- repaired (`fixes/C12-eval-mode.patch`): every wrapper forces eval mode -/
+def forcesEvalFixed : Kind → Bool := fun _ => true
+
+/-- mode the network actually runs in: the caller left it in `cur` (its call history) -/
+def modeOf (force : Bool) (cur : Mode) : Mode := if force then Mode.eval else cur
+
+/-- one forward of a wrapper over a batch: per-frame outputs and the weights afterwards -/
+def netForward {W S F O : Type} (net : Net W S F O) (stats : List F → S) (force : Bool) (cur : Mode) (w : W)
+    (batch : List F) : List O × W :=
+  let m := modeOf force cur
+  (batch.map (net.run m w (stats batch)),
+   match m with
+   | Mode.eval => w
+   | Mode.train => net.update w (stats batch))
+
 /-- `_predict_generator`: read up to `B` frames per round until the sentinel -/
 def chunksFuel {τ : Type} (B : Nat) : Nat → List τ → List (List τ)
   | 0, _ => []
